@@ -196,6 +196,12 @@ let handle_smtp (kind : string) (ins : string list) (outs : string list) : bool 
                  match it with
                  | B (PBlock (body, _, _)) ->
                      List.length body <= int_of_string maxb && int_of_z (first_code r) = 552
+                 | L (Mail (MParsed (sz, _), h)) ->
+                     (* a MAIL declaring nothing, or a size within the limit, refused for its size
+                        (unless a hook denied the sender with that code itself) *)
+                     (match h with Deny (_, _) -> false | _ -> true)
+                     && (match sz with SzNone -> true | SzVal n -> int_of_z n <= int_of_string maxb | SzBad -> false)
+                     && int_of_z (first_code r) = 552
                  | _ -> false) dlg in
                if within_refused then add "C06:within-limit-refused";
                (* C05: a RCPT answered 250 beyond the recipient limit *)
